@@ -135,6 +135,11 @@ class Ctx:
             if f["id"] in seen_known:
                 print(f"KNOWN-FINDING: property={self.pid} {f['id']} {f['what']} "
                       f"(re-observed {seen_known[f['id']]}x)")
+        dump = os.environ.get("VERIF_DUMP_SIGS")
+        if dump:
+            with open(dump, "w") as fh:
+                json.dump({sig: {"count": self.found_count[sig], "what": self.found[sig][0][0],
+                                 "witness": self.found[sig][0][1]} for sig in sorted(self.found)}, fh, indent=1)
         rc = 0
         replay_paths: List[str] = []
         rdir = os.path.join(REPLAY_DIR, self.pid)
